@@ -141,6 +141,34 @@ def run(ctx):
                     continue
                 groups.append(("short-first-prefix", ["hdrs %s %s" % (k, x.hex()) for k in (rnd.choice(KINDS),) for x in (a, full)], None))
         dist["short_first_archives"] = len(shorts)
+        # members whose compressed-size field lies in the upper half of the 32-bit range (the archive is cut short long before):
+        # the skip is a seek on a file, a read loop on a pipe, a callback or a read loop on callbacks.  Plain values, and layouts
+        # in which a skip distance that wrapped to a negative number would land exactly on a header hidden in the previous
+        # member's data.
+        r16 = random.Random(ctx.seed * 86028121 + 1616)
+
+        def simple_member(name, clen, data, lv=None):
+            lv = r16.choice([0, 1, 2]) if lv is None else lv
+            f = {"level": lv, "method": b"-lh0-", "clen": clen, "length": clen & 0xffffffff, "crc": 0, "attr": 0x20, "os": ord('U'),
+                 "time": 0x21 if lv < 2 else 1000000000, "name": name, "exts": [(1, name)]}
+            return lb.build_header(f) + data
+        for big in [2 ** 31 - 1, 2 ** 31, 2 ** 31 + 9, 2 ** 32 - 200, 2 ** 32 - 9, 2 ** 32 - 1 - r16.randrange(1, 60)]:
+            a = simple_member(b"first", 5, b"12345") + simple_member(b"huge", big, bytes(r16.randrange(256) for _ in range(r16.choice([0, 7, 8, 9, 60, 300]))),
+                                                                      lv=r16.choice([0, 2]))
+            for c in ("hdr", "hdrs"):
+                groups.append(("kinds-bigclen", ["%s %s %s" % (c, k, a.hex()) for k in KINDS], None))
+        for _ in range(4 if ctx.quick else 24):
+            hidden = simple_member(b"hidden", 2 ** 31 - 1 - r16.randrange(100), b"", lv=r16.choice([0, 2]))
+            pad = bytes(r16.randrange(1, 9))
+            m1 = simple_member(b"outer", len(pad) + len(hidden) + 3, pad + hidden + b"\0\0\0")
+            s_hidden = m1.index(hidden)
+            lv2 = r16.choice([0, 2])
+            h2len = len(simple_member(b"wraps", 0, b"", lv=lv2))      # the header length does not depend on the size value
+            back = len(m1) + h2len - s_hidden                          # from the end of the second header back to the hidden one
+            wrap = r16.choice([2 ** 32, 2 ** 32, 2 ** 31])
+            a = m1 + simple_member(b"wraps", wrap - back, bytes(r16.randrange(256) for _ in range(12)), lv=lv2)
+            for c in ("hdr", "hdrs"):
+                groups.append(("kinds-bigclen", ["%s %s %s" % (c, k, a.hex()) for k in KINDS], None))
         # prefixes ending in every proper prefix of a signature
         for a in rnd.sample(base, min(len(base), 6)):
             for tail in (b"-", b"-l", b"-lh", b"-lh5", b"zz-lh", b"xx-", b"-pm", b"LHA-SF", b"LhASFX V1.2"):
@@ -223,7 +251,9 @@ def run(ctx):
                        "every length 0..64 and around multiples of 12/24 and near 256 KiB made of signature-free bytes (random, alphabet "
                        "of signature characters, constant, text), prefixes ending in every proper prefix of a signature/marker, stubs "
                        "with marker + one decoy header; groups must yield identical member lists (C-only oracle) and every line must "
-                       "equal the model's; lha t FILE vs lha t - < FILE. non-trivial = group whose reference yields a member",
+                       "equal the model's; lha t FILE vs lha t - < FILE; members with compressed-size fields >= 2^31 (archive cut short), incl. layouts where "
+                       "a skip distance wrapped to a negative number lands on a header hidden in earlier data, through the four kinds, "
+                       "reading and header-only. non-trivial = group whose reference yields a member",
                "distribution": dict(dist), "samples": [groups[0][1][0][:120], groups[-1][1][1][:160]]}
         return {"violations": viol[:12], "mismatches": mism[:10], "coverage": cov,
                 "search_note": "direct oracle: member lists compared across kinds / with and without prefix on the C alone"}
